@@ -3,6 +3,7 @@ import Pyunicorn.Lemmas.VisibilityBetw
 import Pyunicorn.Lemmas.VisibilityFloat
 import Pyunicorn.Lemmas.VisibilityF32
 import Pyunicorn.Lemmas.VisibilityDist
+import Pyunicorn.Lemmas.VisibilityScale
 import Pyunicorn.Generated.ArithC14
 /-!
 # C14 — visibility graphs realise the geometric visibility criterion
@@ -1378,5 +1379,244 @@ example : KeepsApart [some (1 / 3), none, some (2 / 3), some (1 / 3)] := by
   simp only [List.mem_cons, Option.some.injEq, List.not_mem_nil, or_false, reduceCtorEq,
     false_or] at ha hb
   rcases ha with rfl | rfl | rfl <;> rcases hb with rfl | rfl | rfl <;> decide +kernel
+
+/-! ## Round 5: the compiled arithmetic under power-of-two rescalings; a closed class of
+order-faithful data -/
+
+/-- what the decidable hypothesis `NoUflOn x t N a c` (evaluated by the driver, request `noufl`)
+says: seen from every left end `i`, the difference of the timings, the difference of two present
+samples and the rounded quotient are not subnormal (`⌊log₂|·|⌋ ≥ -126`, zero is fine), neither
+before nor after the rescaling by `2^c`, `2^a`, `2^(a-c)` -/
+theorem noUflOn_says (x : List Val) (t : List Rat) (N : Nat) (a c : Int) (h : NoUflOn x t N a c)
+    (i k : Nat) (hik : i < k) (hk : k < N) :
+    NoUfl (t.getD k 0 - t.getD i 0) c ∧
+    ∀ dx, vsub (valAt x k) (valAt x i) = some dx →
+      NoUfl dx a ∧ NoUfl (rndF32 dx / rndF32 (t.getD k 0 - t.getD i 0)) (a - c) :=
+  noUflOn_spec x t N a c h i k hik hk
+
+/-- **the float32 natural kernels are invariant under power-of-two rescalings** `x ↦ 2^a x`,
+`t ↦ 2^c t` — as an equality of results: the same write log *or the same error*
+(`ZeroDivisionError` for timings that tie after rounding, `IndexError` for short arrays), for
+every mask (both kernels), every `N` and every array length.  The scalar fact
+`rndF32_pow2_rescaling` lifted through the four bounds-checked reads and the zero test of
+`slopeR`, the short-circuit condition `condNR`, the `while` loop `scan` and the double loop.
+Closes "invariance of the whole float kernel" of round 4. -/
+theorem nvg_f32_pow2_invariant (x : List Val) (t : List Rat) (mv : Option (List Bool)) (N : Nat)
+    (a c : Int) (h : NoUflOn x t N a c) :
+    kernelNR rndF32 (scaleVals a x) (scaleTimes c t) mv N = kernelNR rndF32 x t mv N :=
+  kernelNR_scale x t mv N a c h
+
+/-- the hypothesis is decidable and not void: a 4-sample series with a missing sample and
+non-uniform timings, values scaled by `2^-100`, times by `2^-40` (by `2^40` the quotients
+`2^-140 Δx/Δt` would be subnormal: the second example) -/
+example : NoUflOn [some 3, none, some (1 / 2), some 7] [0, 1 / 4, 1, 3] 4 (-100) (-40) := by
+  decide +kernel
+example : ¬ NoUflOn [some 3, none, some (1 / 2), some 7] [0, 1 / 4, 1, 3] 4 (-100) 40 := by
+  decide +kernel
+/-- and it is needed: scaled down into the subnormal range (`2^-150`, last place `2^-149`) the
+slopes `3` and `7/2` of this series both round to `4 · 2^-150` and the float kernel loses the
+link `0 – 2` -/
+example : ¬ NoUflOn [some 0, some 3, some 7] [0, 1, 2] 3 (-150) 0 := by decide +kernel
+example : kernelNR rndF32 [some 0, some 3, some 7] [0, 1, 2] none 3
+      = .ok [(0, 2), (0, 1), (1, 2)] ∧
+    kernelNR rndF32 (scaleVals (-150) [some 0, some 3, some 7]) (scaleTimes 0 [0, 1, 2]) none 3
+      = .ok [(0, 1), (1, 2)] := by decide +kernel
+
+/-- **integer series on the default timings** (`|x_k| < 2^23`, at most `2^24` samples, any
+missing samples), rescaled by `2^a`, `2^c` with `a, c ≥ -126`, `a - c ≥ -102`: the hypothesis
+holds, so the float kernels return the same result — no hypothesis about the arithmetic left.
+(Overflow is outside the model: `a`, `c` are meant below the binary32 range.) -/
+theorem nvg_f32_pow2_invariant_integer_series (x : List Val) (hx : IntSeries x)
+    (mv : Option (List Bool)) (N : Nat) (hN : N ≤ 2 ^ 24) (a c : Int) (ha : -126 ≤ a)
+    (hc : -126 ≤ c) (hac : -102 ≤ a - c) :
+    kernelNR rndF32 (scaleVals a x) (scaleTimes c (defaultTimings N)) mv N
+      = kernelNR rndF32 x (defaultTimings N) mv N :=
+  kernelNR_scale x _ mv N a c (noUflOn_intSeries x hx N hN a c ha hc hac)
+
+/-- **small integer series are order-faithful**: `|x_k| ≤ B`, `B · N ≤ 2^22` (12-bit samples
+and 1024 of them, 8-bit samples and 16384 of them, …) on the default timings: two distinct slopes
+`Δx/Δt` differ by at least `1/(Δt Δt')`, more than the sum of their binary32 rounding errors
+(`rndF32_error`), and `rndF32` is monotone — so the hypothesis `Faithful` of
+`nvg_float32_eq_exact`, so far decided per series, is a theorem on this class -/
+theorem small_integer_series_faithful (x : List Val) (B : Int) (N : Nat) (hB : 1 ≤ B)
+    (hx : SmallInt x B) (hBN : B * (N : Int) ≤ 2 ^ 22) :
+    Faithful rndF32 x (defaultTimings N) N :=
+  faithful_smallInt x B N hB hx hBN
+
+/-- hence on such series **the natural kernels in binary32 arithmetic return exactly what the
+exact kernels return** (any mask, both kernels) … -/
+theorem nvg_f32_small_integer_series_exact (x : List Val) (B : Int) (hB : 1 ≤ B)
+    (hx : SmallInt x B) (hBN : B * (x.length : Int) ≤ 2 ^ 22) (mv : Option (List Bool)) :
+    kernelNR rndF32 x (defaultTimings x.length) mv x.length
+      = kernelN x (defaultTimings x.length) mv x.length :=
+  kernelNR_eq rndF32 x _ mv _ (Nat.le_refl _) (by simp [defaultTimings])
+    (faithful_smallInt x B _ hB hx hBN)
+
+/-- … and **realise the geometric criterion exactly** (not only as a subgraph, cf.
+`nvg_f32_integer_series`): the compiled arithmetic links `a < b` iff the two samples see each
+other — no hypothesis about the arithmetic -/
+theorem nvg_f32_small_integer_series_iff (x : List Val) (B : Int) (hB : 1 ≤ B)
+    (hx : SmallInt x B) (hBN : B * (x.length : Int) ≤ 2 ^ 22) :
+    ∃ log, kernelNR rndF32 x (defaultTimings x.length) (some (nanMask x)) x.length = .ok log ∧
+      ∀ a b, (a, b) ∈ log ↔ a < b ∧ b < x.length ∧ NVisible x (defaultTimings x.length) a b :=
+  nvg_float32_iff rndF32 x _ _
+    (defaultTimings_good x _ (by intro m hm; cases hm; simp [nanMask]))
+    (faithful_smallInt x B _ hB hx hBN)
+
+theorem smallInt_intSeries (x : List Val) (B : Int) (hB : 1 ≤ B) (hx : SmallInt x B)
+    (hBN : B * (x.length : Int) ≤ 2 ^ 22) : IntSeries x := by
+  intro r hr
+  obtain ⟨z, rfl, hz⟩ := hx r hr
+  refine ⟨z, rfl, ?_⟩
+  have hl : (1 : Int) ≤ (x.length : Int) := by
+    have := List.length_pos_of_mem hr
+    omega
+  have : B ≤ 2 ^ 22 := by nlinarith
+  omega
+
+/-- **the affine clause for the compiled arithmetic, closed form**: a small integer series in
+any power-of-two unit of the values and of the time axis (`a, c ≥ -126`, `a - c ≥ -102`) — the
+float32 kernel links exactly the pairs that see each other -/
+theorem nvg_f32_small_integer_series_rescaled_iff (x : List Val) (B : Int) (hB : 1 ≤ B)
+    (hx : SmallInt x B) (hBN : B * (x.length : Int) ≤ 2 ^ 22) (a c : Int) (ha : -126 ≤ a)
+    (hc : -126 ≤ c) (hac : -102 ≤ a - c) :
+    ∃ log, kernelNR rndF32 (scaleVals a x) (scaleTimes c (defaultTimings x.length))
+        (some (nanMask x)) x.length = .ok log ∧
+      ∀ p q, (p, q) ∈ log ↔ p < q ∧ q < x.length ∧ NVisible x (defaultTimings x.length) p q := by
+  have hN : x.length ≤ 2 ^ 24 := by
+    have : (x.length : Int) ≤ 2 ^ 22 := by nlinarith
+    omega
+  rw [nvg_f32_pow2_invariant_integer_series x (smallInt_intSeries x B hB hx hBN) _ _ hN a c ha hc
+    hac]
+  exact nvg_f32_small_integer_series_iff x B hB hx hBN
+
+example : SmallInt [some 3, none, some (-2), some 5] 5 := by
+  intro r hr
+  simp only [List.mem_cons, Option.some.injEq, List.not_mem_nil, or_false, reduceCtorEq,
+    false_or] at hr
+  rcases hr with rfl | rfl | rfl
+  · exact ⟨3, by norm_num, by norm_num⟩
+  · exact ⟨-2, by norm_num, by norm_num⟩
+  · exact ⟨5, by norm_num, by norm_num⟩
+/-- the bound is about the right size: with `B · N` a few powers of two larger the slopes
+`2^24` and `2^24 + 1` of `nvg_float32_iff`'s counterexample collapse -/
+example : ¬ Faithful rndF32 [some 0, some 16777216, some 33554434] (defaultTimings 3) 3 := by
+  decide +kernel
+
+/-! ### Round 5: `VisibilityGraph.__init__` in `FIELD` (float32) arithmetic -/
+
+/-- **the natural graph the constructor builds is the exact natural graph of the data it stores**
+(`self.time_series`, `self.timings` after `to_cy(·, FIELD)` / `np.arange(N, dtype=FIELD)`), for
+either value of `missing_values`, whenever the stored data are order-faithful (`FaithfulConv`,
+decided by the driver: `faithfulc`): same write log or same error -/
+theorem class_f32_is_exact_on_stored_data (rnd : Rat → Rat) (x : List Val)
+    (tm : Option (List Rat)) (missing : Bool) (hl : ∀ t, tm = some t → x.length ≤ t.length)
+    (hf : FaithfulConv rnd x tm) :
+    classLogR rnd x tm missing false
+      = classLog (toField rnd x) (some (convTimings rnd x tm)) missing false :=
+  classLogR_natural rnd x tm missing hl hf
+
+/-- hence, with `missing_values=True` and stored timings that are still strictly increasing, the
+compiled constructor never fails and `A[a,b]` is set exactly when the stored samples `a`, `b` see
+each other -/
+theorem class_f32_nvg_iff (rnd : Rat → Rat) (x : List Val) (t : List Rat)
+    (ht : t.length = x.length) (hf : FaithfulConv rnd x (some t))
+    (inc : ∀ a b, a < b → b < x.length → tAt (t.map rnd) a < tAt (t.map rnd) b) :
+    ∃ log, classLogR rnd x (some t) true false = .ok log ∧
+      ∀ a b, (a, b) ∈ log ↔
+        a < b ∧ b < x.length ∧ NVisible (toField rnd x) (t.map rnd) a b := by
+  rw [classLogR_natural rnd x (some t) true (by intro t' h; cases h; omega) hf]
+  have := class_nvg_iff (toField rnd x) (t.map rnd)
+    (by rw [List.length_map, toField_length, ht]) (by rw [toField_length]; exact inc)
+  rw [toField_length] at this
+  exact this
+
+/-- the horizontal graph: the kernel only compares, so the compiled constructor *is* the exact
+constructor on the stored series; with `hvg_float64_callers`: = the exact constructor on the
+caller's float64 values whenever the conversion merges no two samples -/
+theorem class_f32_horizontal (x : List Val) (tm : Option (List Rat)) (missing : Bool) :
+    classLogR rndF32 x tm missing true = classLog (toField rndF32 x) tm missing true ∧
+    (KeepsApart x → classLogR rndF32 x tm missing true = classLog x tm missing true) := by
+  refine ⟨classLogR_horizontal rndF32 x tm missing, fun h => ?_⟩
+  rw [classLogR_horizontal]
+  exact (hvg_float64_callers x h x.length tm missing).2.1
+
+/-- **`VisibilityGraph(x)` on a small integer series** (`|x_k| ≤ B`, `B · N ≤ 2^22`, default
+timings): conversions, `np.arange(N, dtype=FIELD)` and every rounded operation of the kernel
+included, the compiled constructor returns what the exact one returns (either value of
+`missing_values`) … -/
+theorem class_f32_small_integer_series (x : List Val) (B : Int) (hB : 1 ≤ B) (hx : SmallInt x B)
+    (hBN : B * (x.length : Int) ≤ 2 ^ 22) (missing : Bool) :
+    classLogR rndF32 x none missing false = classLog x none missing false :=
+  classLogR_smallInt x B hB hx hBN (smallInt_intSeries x B hB hx hBN) missing
+
+/-- … hence realises the geometric criterion: no hypothesis about the arithmetic -/
+theorem class_f32_small_integer_series_iff (x : List Val) (B : Int) (hB : 1 ≤ B)
+    (hx : SmallInt x B) (hBN : B * (x.length : Int) ≤ 2 ^ 22) :
+    ∃ log, classLogR rndF32 x none true false = .ok log ∧
+      ∀ a b, (a, b) ∈ log ↔ a < b ∧ b < x.length ∧ NVisible x (defaultTimings x.length) a b := by
+  rw [class_f32_small_integer_series x B hB hx hBN true]
+  exact class_nvg_iff_default x
+
+/-- sanity of the model: a double that is not a binary32 number is converted first
+(`1/3 ↦ 11184811 · 2^-25`), and the stored data of this 5-sample series are order-faithful -/
+example : toField rndF32 [some (1 / 3), none] = [some (11184811 / 33554432), none] := by
+  decide +kernel
+example : FaithfulConv rndF32 [some (1 / 3), some (1 / 10), some (2 / 3), none, some (1 / 5)]
+    (some [0, 1 / 10, 1, 2, 3]) := by decide +kernel
+example : classLogR rndF32 [some (1 / 3), some (1 / 10), some (2 / 3), none, some (1 / 5)]
+    (some [0, 1 / 10, 1, 2, 3]) true false = .ok [(0, 2), (0, 1), (1, 2)] := by decide +kernel
+
+theorem scaleVals_eq_aff (a : Int) (x : List Val) : scaleVals a x = x.map (affV (pow2 a) 0) := by
+  unfold scaleVals
+  apply List.map_congr_left
+  intro v _
+  cases v with
+  | none => rfl
+  | some r => simp [affV]
+
+/-- **the constructor in `FIELD` arithmetic under a change of the units by powers of two**
+(`NoUflData`: no sample and no timing is subnormal before or after — the conversions commute with
+the rescaling; `NoUflOn` on the *stored* data): same adjacency or same error,
+natural graph with given timings (`x·2^a`, `t·2^c`), natural graph on the default timings (`x·2^a`),
+horizontal graph (`x·2^a`, any timings: they are not read) -/
+theorem class_f32_pow2_invariant (x : List Val) (a : Int) (missing : Bool)
+    (hx : ∀ r : Rat, some r ∈ x → NoUfl r a) :
+    (∀ (t : List Rat) (c : Int), (∀ r ∈ t, NoUfl r c) →
+      NoUflOn (toField rndF32 x) (t.map rndF32) x.length a c →
+      classLogR rndF32 (scaleVals a x) (some (scaleTimes c t)) missing false
+        = classLogR rndF32 x (some t) missing false) ∧
+    (NoUflOn (toField rndF32 x) ((defaultTimings x.length).map rndF32) x.length a 0 →
+      classLogR rndF32 (scaleVals a x) none missing false
+        = classLogR rndF32 x none missing false) ∧
+    (∀ tm tm' : Option (List Rat),
+      classLogR rndF32 (scaleVals a x) tm' missing true = classLogR rndF32 x tm missing true) := by
+  refine ⟨fun t c ht h => classLogR_scale x t a c missing ⟨hx, ht⟩ h,
+    fun h => classLogR_scale_default x a missing hx h, fun tm tm' => ?_⟩
+  rw [classLogR_horizontal, classLogR_horizontal, toField_scale x a hx, scaleVals_eq_aff]
+  simp only [classLog, List.length_map, hvg_affine_invariant _ _ (pow2 a) 0 (pow2_pos a),
+    isMissing_aff, Bool.not_true, Bool.false_eq_true, if_false]
+
+/-- the same with every hypothesis decided by one executable test (`noUflConvB`, driver request
+`nouflc`): natural graph, given timings rescaled by `2^c` or default timings (`c = 0`) -/
+theorem class_f32_pow2_invariant_decided (x : List Val) (tm : Option (List Rat)) (a c : Int)
+    (missing : Bool) (h : noUflConvB x tm a c = true) :
+    classLogR rndF32 (scaleVals a x) (tm.map (scaleTimes c)) missing false
+      = classLogR rndF32 x tm missing false := by
+  simp only [noUflConvB, Bool.and_eq_true, List.all_eq_true, decide_eq_true_eq] at h
+  obtain ⟨⟨h1, h2⟩, h3⟩ := h
+  have hx : ∀ r : Rat, some r ∈ x → NoUfl r a := fun r hr => (noUflB_iff r a).mp (h1 (some r) hr)
+  cases tm with
+  | some t =>
+    simp only [List.all_eq_true] at h2
+    exact (class_f32_pow2_invariant x a missing hx).1 t c
+      (fun r hr => (noUflB_iff r c).mp (h2 r hr)) h3
+  | none =>
+    have hc : c = 0 := by simpa using h2
+    subst hc
+    exact (class_f32_pow2_invariant x a missing hx).2.1 h3
+
+example : noUflConvB [some (1 / 3), some (1 / 10), some (2 / 3), none, some (1 / 5)]
+    (some [0, 1 / 10, 1, 2, 3]) (-60) 30 = true := by decide +kernel
 
 end Pyunicorn.Visibility
